@@ -448,7 +448,12 @@ class Sim:
                 index = tuple(int(i) for i in index)
                 return env.h_call(index, index[2:], lambda: inp.blocks.get(index, zero))
 
-            self.H = BlockSeries(eval=hcb, shape=(inp.nb, inp.nb), n_infinite=inp.npert, name="Huser")
+            self.user_data = None
+            if world.get("h_data"):
+                # the caller passes the unperturbed blocks through `data=`: that dictionary stays the caller's
+                self.user_data = {(i, i, *inp.zero_o): inp.blocks[(i, i, *inp.zero_o)] for i in range(inp.nb)}
+                self.user_data_keys = sorted(self.user_data)
+            self.H = BlockSeries(eval=hcb, data=self.user_data, shape=(inp.nb, inp.nb), n_infinite=inp.npert, name="Huser")
             self.h_is_series = True
         elif fmt in ("scalar_idx", "scalar_vecs", "implicit"):
             if fmt == "implicit":
@@ -479,6 +484,9 @@ class Sim:
             self.h_is_series = False
         else:
             raise ValueError(fmt)
+        self.container = None
+        if not self.h_is_series:
+            self.container = [(k, id(v)) for k, v in (self.H.items() if isinstance(self.H, dict) else enumerate(self.H))]
         if fmt in ("scalar_vecs", "implicit"):
             self.kw["subspace_eigenvectors"] = inp.vecs
         elif fmt != "blocked":
@@ -809,6 +817,7 @@ class GraphProp:
         views = {}
         audit_in = {k: fingerprint(norm(v)) for k, v in sim.inp.audit_objects().items()}
         handed = []
+        user_seen = {}  # elements of the caller's own series, fingerprinted when first seen
         hist = {}  # (series name, index) -> 1 present, 2 evicted, 3 recomputed
         depth_at_fault = []
 
@@ -980,6 +989,13 @@ class GraphProp:
                     if env.poison_touched:
                         key, order = env.poison_touched[0]
                         fail("poisoned-term-touched", f"op#{opi} {op}: term {key} (order {order}) outside the cone {env.poison} was evaluated")
+                    if self.check_mutation:
+                        for us in sim.user_series:
+                            for k, v in us._data.items():
+                                if (id(us), k) not in user_seen and v is not None:
+                                    nv = norm(v)
+                                    if nv[0] not in ("zero", "one", "obj"):
+                                        user_seen[(id(us), k)] = (v, fingerprint(nv))
                     # memo-state signature + eviction/recompute probe
                     sig = []
                     for sobj in smap.values():
@@ -1028,6 +1044,16 @@ class GraphProp:
             for what, obj, fp in handed:
                 if fingerprint(norm(obj)) != fp:
                     fail("returned-value-mutated", f"value handed out by {what} was modified by a later evaluation")
+                    break
+            if sim.container is not None:
+                now = [(k, id(v)) for k, v in (sim.H.items() if isinstance(sim.H, dict) else enumerate(sim.H))]
+                if now != sim.container:
+                    fail("input-mutated", "the caller's dict/list of Hamiltonian terms was changed (keys or element identities)")
+            if getattr(sim, "user_data", None) is not None and sorted(sim.user_data) != sim.user_data_keys:
+                fail("input-mutated", f"the dict passed as data= to the caller's BlockSeries changed: keys {sorted(sim.user_data)}")
+            for (sid, k), (obj, fp) in user_seen.items():
+                if fingerprint(norm(obj)) != fp:
+                    fail("input-mutated", f"cached element {k} of the caller's Hamiltonian series was modified")
                     break
         if depth_at_fault:
             bump("fault_depth_ge2", sum(1 for d in depth_at_fault if d >= 2))
@@ -1274,7 +1300,7 @@ class GraphProp:
              "vseed": r.randrange(1 << 30), "fmt": fmt, "real": r.random() < 0.25,
              "p_zero_block": r.choice([0.0, 0.0, 0.3, 0.6]), "deg": r.random() < 0.25,
              "complex_e": r.random() < 0.4, "derived": r.random() < profile.get("p_derived", 0.5),
-             "internals": r.random() < profile.get("p_internals", 0.5),
+             "internals": r.random() < profile.get("p_internals", 0.5), "h_data": r.random() < 0.3,
              "cap": profile.get("max_total", {1: 4, 2: 3, 3: 2})[npert] if domain != "sym" else 3}
         if fmt == "scalar_vecs":
             w["real"] = False
